@@ -151,9 +151,15 @@ class TContract:
             for name in self.ensures:
                 out.append(Verdict(name, 'T', 'refuted', f'execution fails for generic inputs: {e}', time.time() - t0, self.fn))
             return out
-        except (Unsupported, NotImplementedError, KeyError) as e:
+        except (Unsupported, NotImplementedError, KeyError, AttributeError, TypeError, IndexError) as e:
+            if type(e).__name__ == 'RangeSplit':
+                pass
             for name in self.ensures:
                 out.append(Verdict(name, 'T', 'undecided', f'outside fragment: {type(e).__name__}: {e}', time.time() - t0, self.fn))
+            return out
+        except Exception as e:
+            for name in self.ensures:
+                out.append(Verdict(name, 'T', 'undecided', f'executor error: {type(e).__name__}: {e}', time.time() - t0, self.fn))
             return out
         texec = time.time() - t0
         finals = [s for s in states if s.done and s.raised is None]
